@@ -621,6 +621,62 @@ func (g *gen) timeStream() {
 	}
 }
 
+// floatIntStream: Go float64 values under the INTEGER datatypes (what RawValue hands out for a JSON number): the value the
+// library must encode is the one the JSON-LD processor writes for that number: the exact integer when the float is integral
+// and fits int64, otherwise the integer denoted by the canonical double (1.0E19 -> 10^19; 16 significant digits), an error when
+// that is not integral (NaN, Inf, fractions).  Includes the int64 boundary, where an overflowing int64(v) conversion would show.
+func (g *gen) floatIntStream() {
+	rng := g.cfg.Rng
+	fl := []float64{0, 1, -1, math.Copysign(0, -1), 0.5, -1.5, 1e-7, 1 << 53, 1<<53 + 2, 1 << 62, 1 << 63, 1<<63 + 2048, -(1 << 63), -(1 << 63) - 2048,
+		1e19, -1e19, 18446744073709551616, 1e21, 1e22, -1e22, 1e30, 1e80, math.MaxFloat64, math.Inf(1), math.Inf(-1), math.NaN(),
+		9223372036854774784, -9223372036854774784, 4611686018427387904}
+	for i := 0; i < g.cfg.Pick(12, 300); i++ {
+		e := 50 + rng.Intn(40)
+		f := math.Ldexp(float64(1+rng.Int63n(1<<52)), e-52)
+		if rng.Intn(2) == 0 {
+			f = -f
+		}
+		fl = append(fl, f)
+	}
+	tys := []string{"integer", "nonNegativeInteger", "positiveInteger", "negativeInteger", "nonPositiveInteger"}
+	for _, f := range fl {
+		for hi := range g.primes {
+			if hi > 1 && rng.Intn(4) != 0 {
+				continue
+			}
+			p := g.primes[hi]
+			for _, ty := range tys {
+				if ty != "integer" && rng.Intn(2) == 0 {
+					continue
+				}
+				in := &Input{Kind: "hash", Hasher: hi, DT: xsd + ty, GoKind: "float", Bits: math.Float64bits(f)}
+				o := g.add(in)
+				if o.panic {
+					continue
+				}
+				var z *big.Int
+				if !math.IsNaN(f) && !math.IsInf(f, 0) {
+					if math.Abs(f) < 9223372036854775808 && f == math.Trunc(f) {
+						z = big.NewInt(int64(f))
+					} else if f == -9223372036854775808 {
+						z = big.NewInt(math.MinInt64)
+					} else if r, ok := new(big.Rat).SetString(ld.GetCanonicalDouble(f)); ok && r.IsInt() {
+						z = new(big.Int).Set(r.Num())
+					}
+				}
+				if z == nil {
+					if o.ok {
+						g.rep.Fail("c04-float-nonintegral-accepted", fmt.Sprintf("%s: float64 %v accepted as %s", ty, f, o.val), in)
+					}
+					continue
+				}
+				wantOK, wantV := expectInt(ty, p, z)
+				g.checkInt(in, o, ty, p, z, wantOK, wantV)
+			}
+		}
+	}
+}
+
 func (g *gen) doubleStream() {
 	dt := xsd + "double"
 	rng := g.cfg.Rng
@@ -893,6 +949,7 @@ func Run(cfg *common.Config) (*common.Report, error) {
 	g.intStream()
 	g.boolStream()
 	g.timeStream()
+	g.floatIntStream()
 	g.doubleStream()
 	g.stringStream()
 	g.typedStream()
